@@ -16,11 +16,50 @@ void a64_harvest_record(uint32_t inst_id, uint32_t options, const asmjit::Operan
   g_forms.push_back(f);
 }
 
+// Instructions the repository's test does not mention (move-wide, acquire/release and exclusive loads and stores,
+// atomic memory operations, hints, ...). Each form is kept only if the a64::Assembler accepts it as written here.
+static void supplement() {
+  using namespace asmjit;
+  using namespace asmjit::a64;
+  namespace I = asmjit::a64::Inst;
+  CodeHolder code;
+  if (code.init(Environment(Arch::kAArch64)) != Error::kOk) return;
+  Assembler as(&code);
+  auto add = [&](uint32_t id, const char* text, std::initializer_list<Operand> ops) {
+    Operand_ o[6]; size_t n = 0;
+    for (const Operand& x : ops) if (n < 6) o[n++] = x;
+    if (as.emit_op_array(id, reinterpret_cast<const Operand*>(o), n) == Error::kOk) a64_harvest_record(id, 0, o, n, text);
+  };
+  static const uint32_t movw[] = {I::kIdMovz, I::kIdMovk, I::kIdMovn};
+  for (uint32_t id : movw) {
+    add(id, "movw(w1, 0x1234)", {w1, Imm(0x1234)});
+    add(id, "movw(x1, 0x1234)", {x1, Imm(0x1234)});
+    add(id, "movw(w1, 0x1234, lsl(16))", {w1, Imm(0x1234), Imm(16)});
+    add(id, "movw(x1, 0xffff, lsl(32))", {x1, Imm(0xffff), Imm(32)});
+    add(id, "movw(x2, 1, lsl(48))", {x2, Imm(1), Imm(48)});
+  }
+  add(I::kIdRet, "ret(x30)", {x30}); add(I::kIdBlr, "blr(x3)", {x3}); add(I::kIdNop, "nop()", {});
+  add(I::kIdSev, "sev()", {}); add(I::kIdSevl, "sevl()", {}); add(I::kIdWfe, "wfe()", {}); add(I::kIdWfi, "wfi()", {}); add(I::kIdYield, "yield()", {});
+  add(I::kIdHint, "hint(5)", {Imm(5)});
+  static const uint32_t ld1[] = {I::kIdLdar, I::kIdLdarb, I::kIdLdarh, I::kIdLdaxr, I::kIdLdaxrb, I::kIdLdaxrh, I::kIdStlr, I::kIdStlrb, I::kIdStlrh, I::kIdStllr, I::kIdStllrb, I::kIdStllrh};
+  for (uint32_t id : ld1) { add(id, "ldst_acqrel(w1, ptr(x2))", {w1, ptr(x2)}); add(id, "ldst_acqrel(x1, ptr(x2))", {x1, ptr(x2)}); }
+  static const uint32_t stx[] = {I::kIdStlxr, I::kIdStlxrb, I::kIdStlxrh};
+  for (uint32_t id : stx) { add(id, "stlxr(w1, w2, ptr(x3))", {w1, w2, ptr(x3)}); add(id, "stlxr(w1, x2, ptr(x3))", {w1, x2, ptr(x3)}); }
+  add(I::kIdLdaxp, "ldaxp(w1, w2, ptr(x3))", {w1, w2, ptr(x3)}); add(I::kIdLdaxp, "ldaxp(x1, x2, ptr(x3))", {x1, x2, ptr(x3)});
+  add(I::kIdStlxp, "stlxp(w1, w2, w3, ptr(x4))", {w1, w2, w3, ptr(x4)}); add(I::kIdStlxp, "stlxp(w1, x2, x3, ptr(x4))", {w1, x2, x3, ptr(x4)});
+  add(I::kIdStnp, "stnp(x1, x2, ptr(x3, 16))", {x1, x2, ptr(x3, 16)}); add(I::kIdStnp, "stnp(w1, w2, ptr(x3, -8))", {w1, w2, ptr(x3, -8)});
+  static const uint32_t stop[] = {I::kIdStadd, I::kIdStaddl, I::kIdStaddb, I::kIdStaddh, I::kIdStclr, I::kIdSteor, I::kIdStset, I::kIdStsmax, I::kIdStsmin, I::kIdStumax, I::kIdStumin, I::kIdStclrl, I::kIdSteorl, I::kIdStsetl};
+  for (uint32_t id : stop) { add(id, "st_atomic(w1, ptr(x2))", {w1, ptr(x2)}); add(id, "st_atomic(x1, ptr(x2))", {x1, ptr(x2)}); }
+  static const uint32_t swp[] = {I::kIdSwp, I::kIdSwpa, I::kIdSwpal, I::kIdSwpl, I::kIdSwpb, I::kIdSwph, I::kIdSwpab, I::kIdSwpalh};
+  for (uint32_t id : swp) { add(id, "swp(w1, w2, ptr(x3))", {w1, w2, ptr(x3)}); add(id, "swp(x1, x2, ptr(x3))", {x1, x2, ptr(x3)}); }
+}
+
 const std::vector<A64Form>& a64_forms() {
   if (!g_harvested) {
     g_harvested = true;
     TestSettings settings{false, false};
     (void)test_aarch64_assembler(settings);
+    supplement();
   }
   return g_forms;
 }
